@@ -1833,6 +1833,27 @@ def _raw_store_kind(p, f, b, s, cf, cs, is_obj):
     return None
 
 
+def _closure_may_not_run(f, s):
+    """the closure built by statement s is the body of `(lo..hi).for_each` with a constant lo >= 1 and a non-constant hi: for the smallest hi the body never runs"""
+    clos_local = s[1][0]
+    plain = Flow(f)
+    sym = Sym(f, plain)
+    for bi, t in f.calls():
+        if (f.callee_def(t) or {}).get("n") != "for_each" or len(t["a"]) != 2:
+            continue
+        if not (t["a"][1][0] in ("c", "m") and t["a"][1][1][0] == clos_local):
+            continue
+        for r in plain.op_roots(t["a"][0]):
+            if r[0] == "agg":
+                rv = f.blocks[r[1]]["s"][r[2]][2]
+                if rv.get("ak") == "Adt" and rv.get("fields") and "start" in rv["fields"] and "end" in rv["fields"]:
+                    lo = sym.operand(rv["o"][rv["fields"].index("start")])
+                    hi = sym.operand(rv["o"][rv["fields"].index("end")])
+                    if lo.is_const() and (lo.const_value() or 0) >= 1 and not hi.is_const():
+                        return True
+    return False
+
+
 def walk_object(p, f, path, start_pos, is_obj, is_obj_place_root, summaries, depth=0):
     """typestate of one object along one path, starting uninitialised.  Returns (verdict, where, what):
     verdict: init | read | accumulate | needs-init | partial | moved | unused"""
@@ -1877,6 +1898,8 @@ def walk_object(p, f, path, start_pos, is_obj, is_obj_place_root, summaries, dep
                         if v:
                             if v[0] == "raw-partial":
                                 state = "raw-partial"
+                            elif v[0] == "init" and _closure_may_not_run(f, s):
+                                pass  # `(1..cols).for_each`: at rank 0 the body does not run - whatever comes next still meets the object as it was taken
                             elif v[0] == "init":
                                 state = "init" if not shrunk else "init-partial"
                                 if state == "init":
@@ -1967,6 +1990,50 @@ def param_summary(p, cf, pi, summaries, depth=0):
     return out
 
 
+def _zero_trip_paths(f, g):
+    """returning paths on which exactly the loops `for v in lo..hi` with a constant lo >= 1 are skipped (all other loops traversed as usual)"""
+    from . import wr
+    from .sym import Sym
+    loops = g.loops()
+    if not loops:
+        return []
+    flow = Flow(f)
+    sym = Sym(f, flow)
+    skippable = {}
+    for L in loops:
+        for b in sorted(L["body"]):
+            t = f.blocks[b]["t"]
+            if t and t["k"] == "Call" and (f.callee_def(t) or {}).get("n") == "next" and g.innermost_loop(b) is L:
+                rg = wr.range_of_next(f, flow, sym, t)
+                if rg is not None and rg[0].is_const() and (rg[0].const_value() or 0) >= 1 and not rg[1].is_const():
+                    sw = t.get("t")
+                    tsw = f.blocks[sw]["t"] if sw is not None else None
+                    if tsw and tsw["k"] == "Switch":
+                        entry = [tb for val, tb in tsw["ts"] if val == 1]
+                        if entry:
+                            skippable[L["header"]] = (L, entry[0])
+                break
+    if not skippable:
+        return []
+    allp = sc.returning_paths(f, g, cap=512, dowhile=False) or []
+    out = []
+    for pth in allp:
+        s = set(pth)
+        skipped = [h for h, (L, e) in skippable.items() if h in s and e not in s]
+        if not skipped:
+            continue
+        # every other loop on the path is entered
+        ok = True
+        for L in loops:
+            h = L["header"]
+            if h in s and h not in skipped and len(s & L["body"]) <= 2 and len(L["body"]) > 3:
+                ok = False
+                break
+        if ok:
+            out.append(pth)
+    return out[:256]
+
+
 def sc3(p, res):
     n_takes = 0
     summaries = {}
@@ -1981,6 +2048,8 @@ def sc3(p, res):
             res.undec("SC-3", "%s: too many paths" % f.pretty)
             continue
         paths = [pth for pth in paths if iteration_feasible(f, g, pth)]
+        # loops over `lo..hi` with a constant lo >= 1 (`for i in 1..cols`) do not run for the smallest admissible hi (rank 0): their zero-trip paths are paths too
+        paths = paths + _zero_trip_paths(f, g)
         for tb, tt in takes:
             tname = (f.callee_def(tt) or {}).get("n")
             if tname.endswith("_slice"):
